@@ -202,6 +202,17 @@ def run(ctx: Context) -> None:
                     val_ok = const_value(w.value, None) is True
                     between = [n for n in walk_no_nested(fi.node) if isinstance(n, ast.Assign) and norm_text(n.targets[0]) == mname and al.lineno < n.lineno < w.lineno]
                     flat_ok = is_view and idx_ok and val_ok and not between
+                elif not writes:
+                    # the same positions through their (row, column) form: mask[numpy.unravel_index(hits, <the shape the mask was made with>)] = True (C order)
+                    for n in walk_no_nested(fi.node):
+                        if isinstance(n, ast.Assign) and isinstance(n.targets[0], ast.Subscript) and norm_text(n.targets[0].value) == mname \
+                                and isinstance(n.targets[0].slice, ast.Call) and callee(ctx, fi, n.targets[0].slice) == 'numpy.unravel_index':
+                            u = n.targets[0].slice
+                            shp = arg_or_kw(u, 1, 'shape')
+                            between = [x for x in walk_no_nested(fi.node) if isinstance(x, ast.Assign) and norm_text(x.targets[0]) == mname and al.lineno < x.lineno < n.lineno]
+                            flat_ok = (bool(u.args) and flow.resolve(u.args[0]) is q and shp is not None and kwarg(u, 'order') is None and len(u.args) <= 2
+                                       and norm_text(flow.resolve(shp)) == norm_text(flow.resolve(al.value.args[0])) and const_value(n.value, None) is True and not between)
+                            writes = [n]
                 ctx.check('R07.2', flat_ok, "exactly the hit positions are set True through mask.ravel() (a view of the fresh array: linear index order)", fi,
                           writes[0] if writes else fi.node, construct=f"{fi.short}: {norm_text(writes[0]) if writes else 'flat write not found'}")
             blurs = [c for c in calls_in(fi) if callee(ctx, fi, c) == f"{MASKING}.blur_mask"]
